@@ -16,3 +16,11 @@ func TestJsExprStringLiteralWithBraces(t *testing.T) {
 	assert.Equal(t, `"a{{b}}"`, s.JsExpr(`"a{{b}}"`, false, false))
 	assert.Equal(t, `test`, s.JsExpr(`"test"`, true, false))
 }
+
+// quotes, backslashes and line breaks in the literal parts of an interpolated string stay inside their strings
+func TestJsExprInterpolatedStringParts(t *testing.T) {
+	var s = newRenderState("/", true, nil, flamingo.NullLogger{})
+
+	assert.Equal(t, `(__str "say \"" $a "\" and a\\b\n")`, s.JsExpr(`"say \"${a}\" and a\\b\n"`, false, false))
+	assert.Equal(t, `(__str  (f "") )`, s.JsExpr("`${f('')}`", false, false))
+}
